@@ -155,6 +155,51 @@ def run(ctx):
         else:
             ob(name, "pass", f"{npaths} paths, {eng.queries} queries", eng.queries, {"class": cname, "paths": npaths})
 
+    # ------------------------------------------------------------------ one distribution, several classes: the densities agree
+    # (a normalisation constant that is wrong in one class or one parameter branch shows here, without integrating)
+    bsc = z3.Real("scale")
+    FAMILY = [("DistGamma", [1.0, bsc], "DistExponential", [bsc], "Gamma(1, b) = Exponential(b)"),
+              ("DistErlang", [bsc, 1], "DistExponential", [bsc], "Erlang(b, 1) = Exponential(b)"),
+              ("DistGamma", [2.0, bsc], "DistErlang", [bsc, 2], "Gamma(2, b) = Erlang(b, 2)"),
+              ("DistGamma", [3.0, bsc], "DistErlang", [bsc, 3], "Gamma(3, b) = Erlang(b, 3)"),
+              ("DistWeibull", [1.0, bsc], "DistExponential", [bsc], "Weibull(1, b) = Exponential(b)")]
+    for ca, pa, cb, pb, label in FAMILY:
+        eng = A.Engine(unroll=2, hooks=hooks, solver_timeout_ms=1500)
+        eng.prove_timeout_ms = 20000 if ctx.tier == "quick" else 120000
+        nm = f"densities of one distribution agree: {label}, for all b > 0 and x > 0"
+        verdicts, cex = [], None
+        try:
+            for qa, da in build(eng, getattr(D, ca), pa, z3.And(bsc > 0, x > 0)):
+                for qa2, oa in eng.call_method(qa, da, "probability_density", [x], {}):
+                    if not eng.feasible(qa2):
+                        continue
+                    for qb, db in build(eng, getattr(D, cb), pb, z3.And(bsc > 0, x > 0)):
+                        for qb2, obb in eng.call_method(qb, db, "probability_density", [x], {}):
+                            if not eng.feasible(qb2):
+                                continue
+                            if oa[0] != "return" or obb[0] != "return":
+                                verdicts.append("unknown")
+                                continue
+                            va = A.to_real(oa[1]) if A.is_sym(oa[1]) else A.to_z3(float(oa[1]))
+                            vb = A.to_real(obb[1]) if A.is_sym(obb[1]) else A.to_z3(float(obb[1]))
+                            joint = qa2.clone()
+                            joint.pc = list(qa2.pc) + list(qb2.pc)
+                            r, m = A.prove(eng, joint, va == vb)
+                            verdicts.append(r)
+                            if r == "sat" and cex is None:
+                                cex = (model_num(m, bsc), model_num(m, x))
+        except A.Unsupported as e:
+            verdicts.append("unknown: " + str(e))
+        tq += eng.queries
+        ts += eng.solver_s
+        if cex is not None:
+            ctx.report_counterexample(nm, "astsym-z3", "c15", "r_family", [ca, [p if not z3.is_expr(p) else cex[0] for p in pa],
+                                                                           cb, [p if not z3.is_expr(p) else cex[0] for p in pb], cex[1]], {}, {})
+        elif verdicts and all(v == "unsat" for v in verdicts):
+            ob(nm, "pass", f"{len(verdicts)} path pairs", len(verdicts), {"identity": label})
+        else:
+            ob(nm, "inconclusive", str(verdicts[:4]), len(verdicts))
+
     # ------------------------------------------------------------------ finite supports sum to one
     def pmf_sum(cname, params, ks, pre):
         eng = A.Engine(unroll=2, hooks=hooks, solver_timeout_ms=1500)
